@@ -24,7 +24,7 @@ def runner_tasks(tier):
             {"module": "c05", "task": "f0", "kind": "eval", "clause": "f0 coefficients and limits, all 211 entries"},
             {"module": "c05", "task": "sld", "kind": "bounded", "clause": "compound SLD, relations, reflectivity"},
             {"module": "c09", "task": "steps", "name": "first-touch steps", "kind": "eval", "arg": {"groups": ["xray"]}, "clause": "every first touch of the x-ray data serves the canonical data", "timeout": 1500},
-            {"module": "stateful", "task": "C05", "name": "stateful C05", "kind": "bounded", "clause": "energy / wavelength / Q in every numeric type and array layout"}]
+            {"module": "stateful", "task": "C05", "name": "stateful C05", "kind": "bounded", "clause": "energy / wavelength / Q in every numeric type and array layout; f0 of tabulated atoms unchanged after requests for ions without coefficients"}]
 
 
 REPLAY = {"module": "c05", "task": "replay"}
